@@ -1,6 +1,28 @@
-"""Layer G: tables regenerated from /repo's Python AST into lean/DfolsVerif/Gen/*.lean on every run."""
+"""Layer G: tables regenerated from /repo's Python AST into lean/DfolsVerif/Gen/*.lean on every run.
+
+  Gen/ParamTable.lean  <- dfols/params.py    ParameterList.__init__ (defaults as expressions of n, npt, maxfun,
+                                             objfun_has_noise) and ParameterList.param_type (type, None-allowed, bounds)
+  Gen/ExitCodes.lean   <- dfols/controller.py (EXIT_* constants, __all__, message stems, able_to_do_restart),
+                          dfols/solver.py     (OptimResults.__init__ arity + EXIT_* attributes, the OptimResults(...) and
+                                               ExitInformation(...) calls inside solve), docs/userguide.rst (soln.EXIT_*)
+
+Committed reference copies describing the repaired code: lean/DfolsVerif/Spec/*.lean, tied to Gen by
+`gen_eq_spec` theorems (DfolsVerif/Proofs/GenSpec.lean).  `python harness/gen.py --write-spec` rewrites the Spec
+files from the current $DFOLS_REPO (only to be used when a `fix:` commit deliberately changed a table).
+
+regenerate() never raises on unparsable / unexpected source: it records ctx.broke("gen:<table>", detail) and leaves
+the previous Gen file in place.
+"""
+import ast
 import os
+import re
+import struct
+import sys
+
 import core
+
+GEN_DIR = os.path.join(core.LEAN_DIR, "DfolsVerif", "Gen")
+SPEC_DIR = os.path.join(core.LEAN_DIR, "DfolsVerif", "Spec")
 
 
 def write_if_changed(path, content):
@@ -13,5 +35,450 @@ def write_if_changed(path, content):
     return False
 
 
+class Unsupported(Exception):
+    pass
+
+
+# ----------------------------------------------------------------------------------------------
+# small helpers
+# ----------------------------------------------------------------------------------------------
+def _bits(x: float) -> int:
+    return struct.unpack("<Q", struct.pack("<d", float(x)))[0]
+
+
+def lean_str(s: str) -> str:
+    out = []
+    for ch in s:
+        if ch == "\\":
+            out.append("\\\\")
+        elif ch == '"':
+            out.append('\\"')
+        elif ch == "\n":
+            out.append("\\n")
+        elif ch == "\t":
+            out.append("\\t")
+        elif 32 <= ord(ch) < 127:
+            out.append(ch)
+        else:
+            out.append("\\u{%x}" % ord(ch))
+    return '"' + "".join(out) + '"'
+
+
+def lean_int(i: int) -> str:
+    return "(%d)" % i if i < 0 else "%d" % i
+
+
+def _is_const_tree(node) -> bool:
+    return all(isinstance(x, (ast.Constant, ast.BinOp, ast.UnaryOp, ast.operator, ast.unaryop, ast.expr_context))
+               for x in ast.walk(node))
+
+
+def _fold(node):
+    """constant-fold a literal-only arithmetic tree with the interpreter's own arithmetic (e.g. `1-1e-1`)"""
+    for x in ast.walk(node):
+        if isinstance(x, ast.Constant) and not isinstance(x.value, (int, float, bool)):
+            raise Unsupported("non-numeric constant in arithmetic: %s" % ast.dump(node))
+        if isinstance(x, ast.BinOp) and not isinstance(x.op, (ast.Add, ast.Sub, ast.Mult, ast.Div, ast.FloorDiv, ast.Pow)):
+            raise Unsupported("operator in constant expression: %s" % ast.dump(node))
+    return eval(compile(ast.Expression(body=node), "<const>", "eval"), {"__builtins__": {}}, {})
+
+
+SIZE_NAMES = {"n": ".n", "npt": ".npt", "maxfun": ".maxfun"}
+
+
+def iexpr(node) -> str:
+    if isinstance(node, ast.Constant) and isinstance(node.value, int) and not isinstance(node.value, bool):
+        return ".lit %s" % lean_int(node.value)
+    if isinstance(node, ast.UnaryOp) and isinstance(node.op, ast.USub) and _is_const_tree(node):
+        v = _fold(node)
+        if isinstance(v, int):
+            return ".lit %s" % lean_int(v)
+    if isinstance(node, ast.Name) and node.id in SIZE_NAMES:
+        return SIZE_NAMES[node.id]
+    if isinstance(node, ast.BinOp):
+        ops = {ast.Add: "add", ast.Sub: "sub", ast.Mult: "mul", ast.FloorDiv: "fdiv"}
+        for k, nm in ops.items():
+            if isinstance(node.op, k):
+                return ".%s (%s) (%s)" % (nm, iexpr(node.left), iexpr(node.right))
+    raise Unsupported("integer expression: %s" % ast.dump(node))
+
+
+def cond(node) -> str:
+    if isinstance(node, ast.Name) and node.id == "objfun_has_noise":
+        return ".noise"
+    if isinstance(node, ast.Compare) and len(node.ops) == 1:
+        ops = {ast.Gt: "gt", ast.GtE: "ge", ast.Lt: "lt", ast.LtE: "le"}
+        for k, nm in ops.items():
+            if isinstance(node.ops[0], k):
+                return ".%s (%s) (%s)" % (nm, iexpr(node.left), iexpr(node.comparators[0]))
+    raise Unsupported("condition: %s" % ast.dump(node))
+
+
+def const_dexpr(v) -> str:
+    if v is None:
+        return ".none"
+    if isinstance(v, bool):
+        return ".bool %s" % ("true" if v else "false")
+    if isinstance(v, int):
+        return ".int (.lit %s)" % lean_int(v)
+    if isinstance(v, float):
+        return ".flt 0x%016X" % _bits(v)
+    raise Unsupported("default constant %r" % (v,))
+
+
+def _params_key(node):
+    """self.params["key"] -> key"""
+    if (isinstance(node, ast.Subscript) and isinstance(node.value, ast.Attribute) and node.value.attr == "params"
+            and isinstance(node.value.value, ast.Name) and node.value.value.id == "self"):
+        sl = node.slice
+        if isinstance(sl, ast.Constant) and isinstance(sl.value, str):
+            return sl.value
+    return None
+
+
+def dexpr(node, env) -> str:
+    if isinstance(node, ast.Constant):
+        return const_dexpr(node.value)
+    if isinstance(node, ast.IfExp):
+        return ".ite (%s) (%s) (%s)" % (cond(node.test), dexpr(node.body, env), dexpr(node.orelse, env))
+    k = _params_key(node)
+    if k is not None:
+        if k not in env:
+            raise Unsupported("default refers to a key not yet set: %s" % k)
+        return env[k]            # defaults are built sequentially without mutation in between: inlining is exact
+    if isinstance(node, (ast.BinOp, ast.UnaryOp)) and _is_const_tree(node):
+        return const_dexpr(_fold(node))
+    if isinstance(node, (ast.BinOp, ast.Name)):
+        return ".int (%s)" % iexpr(node)
+    raise Unsupported("default expression: %s" % ast.dump(node))
+
+
+def bound(node) -> str:
+    if isinstance(node, ast.Constant):
+        v = node.value
+        if v is None:
+            return ".none"
+        if isinstance(v, bool):
+            raise Unsupported("bool bound")
+        if isinstance(v, int):
+            return ".int %s" % lean_int(v)
+        if isinstance(v, float):
+            return ".flt 0x%016X" % _bits(v)
+    if isinstance(node, ast.Name) and node.id == "npt":
+        return ".nptPlus 0"
+    if isinstance(node, ast.BinOp) and isinstance(node.left, ast.Name) and node.left.id == "npt" \
+            and isinstance(node.right, ast.Constant) and isinstance(node.right.value, int) and not isinstance(node.right.value, bool):
+        if isinstance(node.op, ast.Sub):
+            return ".nptPlus %s" % lean_int(-node.right.value)
+        if isinstance(node.op, ast.Add):
+            return ".nptPlus %s" % lean_int(node.right.value)
+    if isinstance(node, (ast.BinOp, ast.UnaryOp)) and _is_const_tree(node):
+        v = _fold(node)
+        if isinstance(v, int) and not isinstance(v, bool):
+            return ".int %s" % lean_int(v)
+        if isinstance(v, float):
+            return ".flt 0x%016X" % _bits(v)
+    raise Unsupported("bound expression: %s" % ast.dump(node))
+
+
+def _find(body, cls, name):
+    for st in body:
+        if isinstance(st, cls) and st.name == name:
+            return st
+    raise Unsupported("%s %s not found" % (cls.__name__, name))
+
+
+# ----------------------------------------------------------------------------------------------
+# params.py
+# ----------------------------------------------------------------------------------------------
+def parse_params(src):
+    tree = ast.parse(src)
+    cls = _find(tree.body, ast.ClassDef, "ParameterList")
+    init = _find(cls.body, ast.FunctionDef, "__init__")
+    argn = [a.arg for a in init.args.args]
+    if argn != ["self", "n", "npt", "maxfun", "objfun_has_noise"]:
+        raise Unsupported("ParameterList.__init__ signature %s" % argn)
+    env, order, notes = {}, [], {}
+    for st in init.body:
+        if isinstance(st, ast.Assign) and len(st.targets) == 1:
+            k = _params_key(st.targets[0])
+            if k is None:
+                continue
+            d = dexpr(st.value, env)
+            if k not in env:
+                order.append(k)
+            env[k] = d
+            notes[k] = ast.unparse(st.value)
+    ptype = _find(cls.body, ast.FunctionDef, "param_type")
+    if [a.arg for a in ptype.args.args] != ["self", "key", "npt"]:
+        raise Unsupported("param_type signature")
+    types = []
+    node = None
+    for st in ptype.body:
+        if isinstance(st, ast.If):
+            node = st
+            break
+    if node is None:
+        raise Unsupported("param_type has no if-chain")
+    tags = {"int": ".int", "float": ".float", "bool": ".bool", "str": ".str"}
+    while True:
+        t = node.test
+        if not (isinstance(t, ast.Compare) and isinstance(t.left, ast.Name) and t.left.id == "key" and len(t.ops) == 1
+                and isinstance(t.ops[0], ast.Eq) and isinstance(t.comparators[0], ast.Constant)
+                and isinstance(t.comparators[0].value, str)):
+            raise Unsupported("param_type test: %s" % ast.unparse(t))
+        key = t.comparators[0].value
+        if len(node.body) != 1 or not isinstance(node.body[0], ast.Assign):
+            raise Unsupported("param_type body for %s" % key)
+        asg = node.body[0]
+        tgt = asg.targets[0]
+        if not (isinstance(tgt, ast.Tuple) and [getattr(e, "id", None) for e in tgt.elts] == ["type_str", "nonetype_ok", "lower", "upper"]
+                and isinstance(asg.value, ast.Tuple) and len(asg.value.elts) == 4):
+            raise Unsupported("param_type assignment for %s" % key)
+        ty, nn, lo, hi = asg.value.elts
+        if not (isinstance(ty, ast.Constant) and ty.value in tags):
+            raise Unsupported("type_str for %s" % key)
+        if not (isinstance(nn, ast.Constant) and isinstance(nn.value, bool)):
+            raise Unsupported("nonetype_ok for %s" % key)
+        types.append((key, "⟨%s, %s, %s, %s⟩" % (tags[ty.value], "true" if nn.value else "false", bound(lo), bound(hi)),
+                      ast.unparse(asg.value), {"type": ty.value, "none_ok": nn.value, "lower": ast.unparse(lo), "upper": ast.unparse(hi)}))
+        if len(node.orelse) == 1 and isinstance(node.orelse[0], ast.If):
+            node = node.orelse[0]
+        else:
+            break
+    return [(k, env[k], notes[k]) for k in order], types
+
+
+def render_params(ns, defaults, types):
+    L = ["/- %s: parameter table of dfols/params.py (ParameterList.__init__ defaults, ParameterList.param_type)." % (
+        "GENERATED by harness/gen.py from $DFOLS_REPO on every run — do not edit" if ns == "Gen"
+        else "COMMITTED REFERENCE describing the repaired code (written by `harness/gen.py --write-spec`)"),
+         "   floats are raw binary64 bits; `.nptPlus d` is `npt + d`; references to earlier keys are inlined. -/",
+         "import DfolsVerif.Book.PyVal", "", "namespace Dfols.%s" % ns, "open Dfols.Py", "",
+         "def paramDefaults : List (String × DExpr) := ["]
+    for i, (k, d, note) in enumerate(defaults):
+        L.append("  (%s, %s)%s  -- %s" % (lean_str(k), d, "," if i + 1 < len(defaults) else "", note))
+    L += ["]", "", "def paramTypes : List (String × TypeEntry) := ["]
+    for i, (k, t, note, _raw) in enumerate(types):
+        L.append("  (%s, %s)%s  -- %s" % (lean_str(k), t, "," if i + 1 < len(types) else "", note))
+    L += ["]", "", "end Dfols.%s" % ns, ""]
+    return "\n".join(L)
+
+
+# ----------------------------------------------------------------------------------------------
+# controller.py / solver.py / userguide.rst
+# ----------------------------------------------------------------------------------------------
+def _str_list(node):
+    if isinstance(node, (ast.List, ast.Tuple)) and all(isinstance(e, ast.Constant) and isinstance(e.value, str) for e in node.elts):
+        return [e.value for e in node.elts]
+    raise Unsupported("string list: %s" % ast.dump(node)[:200])
+
+
+def _name_list(node):
+    if isinstance(node, (ast.List, ast.Tuple)) and all(isinstance(e, ast.Name) for e in node.elts):
+        return [e.id for e in node.elts]
+    raise Unsupported("name list: %s" % ast.dump(node)[:200])
+
+
+def _is_self_attr(node, attr):
+    return isinstance(node, ast.Attribute) and node.attr == attr and isinstance(node.value, ast.Name) and node.value.id == "self"
+
+
+def parse_exit(controller_src, solver_src, guide_src):
+    ctree = ast.parse(controller_src)
+    constants, call = [], None
+    for st in ctree.body:
+        if isinstance(st, ast.Assign) and len(st.targets) == 1 and isinstance(st.targets[0], ast.Name):
+            nm = st.targets[0].id
+            if nm == "__all__":
+                call = _str_list(st.value)
+            elif nm.startswith("EXIT_"):
+                v = _fold(st.value) if _is_const_tree(st.value) else None
+                if not isinstance(v, int) or isinstance(v, bool):
+                    raise Unsupported("exit constant %s is not an int literal" % nm)
+                constants = [(a, b) for (a, b) in constants if a != nm] + [(nm, v)]
+    if call is None:
+        raise Unsupported("controller.__all__ not found")
+    ei = _find(ctree.body, ast.ClassDef, "ExitInformation")
+    # message(): if not with_stem: return self.msg / elif self.flag == EXIT_X: return "stem" + self.msg / else: return "..." + self.msg
+    msg = _find(ei.body, ast.FunctionDef, "message")
+    stems, unknown = [], None
+    node = next((st for st in msg.body if isinstance(st, ast.If)), None)
+    if node is None:
+        raise Unsupported("message() has no if-chain")
+
+    def stem_of(ret):
+        if (isinstance(ret, ast.Return) and isinstance(ret.value, ast.BinOp) and isinstance(ret.value.op, ast.Add)
+                and isinstance(ret.value.left, ast.Constant) and isinstance(ret.value.left.value, str) and _is_self_attr(ret.value.right, "msg")):
+            return ret.value.left.value
+        raise Unsupported("message() return: %s" % ast.unparse(ret))
+
+    first = True
+    while True:
+        t = node.test
+        if first:
+            first = False
+            if not (isinstance(t, ast.UnaryOp) and isinstance(t.op, ast.Not) and isinstance(t.operand, ast.Name) and t.operand.id == "with_stem"):
+                raise Unsupported("message() first test: %s" % ast.unparse(t))
+        else:
+            if not (isinstance(t, ast.Compare) and _is_self_attr(t.left, "flag") and len(t.ops) == 1 and isinstance(t.ops[0], ast.Eq)
+                    and isinstance(t.comparators[0], ast.Name)):
+                raise Unsupported("message() test: %s" % ast.unparse(t))
+            if len(node.body) != 1:
+                raise Unsupported("message() body")
+            stems.append((t.comparators[0].id, stem_of(node.body[0])))
+        if len(node.orelse) == 1 and isinstance(node.orelse[0], ast.If):
+            node = node.orelse[0]
+        else:
+            if len(node.orelse) != 1:
+                raise Unsupported("message() else branch")
+            unknown = stem_of(node.orelse[0])
+            break
+    # able_to_do_restart(): if self.flag in [..]: return True / elif self.flag in [..]: return False / else: <message test>
+    ar = _find(ei.body, ast.FunctionDef, "able_to_do_restart")
+    yes, no = [], []
+    node = next((st for st in ar.body if isinstance(st, ast.If)), None)
+    while node is not None:
+        t = node.test
+        if not (isinstance(t, ast.Compare) and _is_self_attr(t.left, "flag") and len(t.ops) == 1 and isinstance(t.ops[0], ast.In)):
+            raise Unsupported("able_to_do_restart test: %s" % ast.unparse(t))
+        names = _name_list(t.comparators[0])
+        ret = node.body[0]
+        if not (len(node.body) == 1 and isinstance(ret, ast.Return) and isinstance(ret.value, ast.Constant) and isinstance(ret.value.value, bool)):
+            raise Unsupported("able_to_do_restart body")
+        (yes if ret.value.value else no).extend(names)
+        node = node.orelse[0] if (len(node.orelse) == 1 and isinstance(node.orelse[0], ast.If)) else None
+
+    stree = ast.parse(solver_src)
+    orc = _find(stree.body, ast.ClassDef, "OptimResults")
+    oinit = _find(orc.body, ast.FunctionDef, "__init__")
+    a = oinit.args
+    if a.vararg or a.kwarg or a.kwonlyargs or a.posonlyargs:
+        raise Unsupported("OptimResults.__init__ signature")
+    amax = len(a.args) - 1
+    amin = amax - len(a.defaults)
+    attrs = []
+    for st in oinit.body:
+        if isinstance(st, ast.Assign) and len(st.targets) == 1 and isinstance(st.targets[0], ast.Attribute) \
+                and _is_self_attr(st.targets[0], st.targets[0].attr) and st.targets[0].attr.startswith("EXIT_"):
+            if not isinstance(st.value, ast.Name):
+                raise Unsupported("OptimResults attribute %s" % ast.unparse(st))
+            attrs.append((st.targets[0].attr, st.value.id))
+    solve = _find(stree.body, ast.FunctionDef, "solve")
+    calls, msgs = [], []
+    for x in ast.walk(solve):
+        if isinstance(x, ast.Call) and isinstance(x.func, ast.Name):
+            if x.func.id == "OptimResults":
+                if any(isinstance(g, ast.Starred) for g in x.args) or any(k.arg is None for k in x.keywords):
+                    raise Unsupported("OptimResults call with *args")
+                calls.append((x.lineno, x.col_offset, len(x.args) + len(x.keywords)))
+            elif x.func.id == "ExitInformation":
+                if len(x.args) != 2 or not isinstance(x.args[0], ast.Name):
+                    raise Unsupported("ExitInformation call: %s" % ast.unparse(x))
+                m = x.args[1]
+                if isinstance(m, ast.BinOp) and isinstance(m.op, ast.Mod):
+                    m = m.left
+                if not (isinstance(m, ast.Constant) and isinstance(m.value, str)):
+                    raise Unsupported("ExitInformation message: %s" % ast.unparse(x))
+                msgs.append((x.lineno, x.col_offset, x.args[0].id, m.value))
+    calls.sort()
+    msgs.sort()
+    guide = []
+    for m in re.finditer(r"soln\.(EXIT_[A-Z_]+)", guide_src):
+        if m.group(1) not in guide:
+            guide.append(m.group(1))
+    # controllerAll and resultAttrs are sets semantically: sorted, so that the order in which a patch adds names is immaterial
+    return dict(constants=constants, controllerAll=sorted(x for x in call if x.startswith("EXIT_")), stems=stems, unknownStem=unknown,
+                restartYes=yes, restartNo=no, resultArityMin=amin, resultArityMax=amax, resultAttrs=sorted(attrs),
+                resultCallArities=[c[2] for c in calls], solveExitMessages=[(m[2], m[3]) for m in msgs], userGuideExits=guide)
+
+
+def render_exit(ns, t):
+    def strs(xs):
+        return "[" + ", ".join(lean_str(x) for x in xs) + "]"
+
+    def pairs(xs, f):
+        if not xs:
+            return "[]"
+        return "[\n" + ",\n".join("    (%s, %s)" % (lean_str(a), f(b)) for a, b in xs) + "]"
+
+    L = ["/- %s: exit codes, message stems, restartability, result constructor, user-guide constants." % (
+        "GENERATED by harness/gen.py from $DFOLS_REPO on every run — do not edit" if ns == "Gen"
+        else "COMMITTED REFERENCE describing the repaired code (written by `harness/gen.py --write-spec`)"),
+         "   Field meanings: DfolsVerif/Book/ExitTable.lean. -/",
+         "import DfolsVerif.Book.ExitTable", "", "namespace Dfols.%s" % ns, "open Dfols.Py", "",
+         "def exitTable : ExitTable where",
+         "  constants := %s" % pairs(t["constants"], lean_int),
+         "  controllerAll := %s" % strs(t["controllerAll"]),
+         "  stems := %s" % pairs(t["stems"], lean_str),
+         "  unknownStem := %s" % lean_str(t["unknownStem"]),
+         "  restartYes := %s" % strs(t["restartYes"]),
+         "  restartNo := %s" % strs(t["restartNo"]),
+         "  resultArityMin := %d" % t["resultArityMin"],
+         "  resultArityMax := %d" % t["resultArityMax"],
+         "  resultAttrs := %s" % pairs(t["resultAttrs"], lean_str),
+         "  resultCallArities := [%s]" % ", ".join(str(x) for x in t["resultCallArities"]),
+         "  solveExitMessages := %s" % pairs(t["solveExitMessages"], lean_str),
+         "  userGuideExits := %s" % strs(t["userGuideExits"]),
+         "", "end Dfols.%s" % ns, ""]
+    return "\n".join(L)
+
+
+# ----------------------------------------------------------------------------------------------
+def _read(rel):
+    with open(os.path.join(core.REPO, rel), encoding="utf-8") as f:
+        return f.read()
+
+
+SPEC_JSON = os.path.join(os.path.dirname(os.path.abspath(__file__)), "spec_tables.json")
+RAW = {}
+
+
+def build_tables():
+    """returns ({table: content-renderer(ns)}, {table: error detail})"""
+    out, errs = {}, {}
+    try:
+        d, t = parse_params(_read("dfols/params.py"))
+        out["ParamTable"] = lambda ns, d=d, t=t: render_params(ns, d, t)
+        RAW["params"] = {"defaults": [[k, note] for (k, _d, note) in d], "types": [[k, raw] for (k, _t, _n, raw) in t]}
+    except Exception as e:   # SyntaxError, Unsupported, OSError, ...
+        errs["ParamTable"] = "%s: %s" % (type(e).__name__, e)
+    try:
+        ex = parse_exit(_read("dfols/controller.py"), _read("dfols/solver.py"), _read("docs/userguide.rst"))
+        out["ExitCodes"] = lambda ns, ex=ex: render_exit(ns, ex)
+        RAW["exit"] = ex
+    except Exception as e:
+        errs["ExitCodes"] = "%s: %s" % (type(e).__name__, e)
+    return out, errs
+
+
 def regenerate(ctx):
-    return
+    out, errs = build_tables()
+    changed = []
+    for name, render in out.items():
+        if write_if_changed(os.path.join(GEN_DIR, name + ".lean"), render("Gen")):
+            changed.append(name)
+    for name, detail in errs.items():
+        if ctx is not None:
+            ctx.broke("gen:" + name, detail)
+        # keep the project buildable: fall back to the committed reference if there is no Gen file at all
+        p = os.path.join(GEN_DIR, name + ".lean")
+        sp = os.path.join(SPEC_DIR, name + ".lean")
+        if not os.path.exists(p) and os.path.exists(sp):
+            write_if_changed(p, open(sp).read().replace("namespace Dfols.Spec", "namespace Dfols.Gen").replace("end Dfols.Spec", "end Dfols.Gen"))
+    if ctx is not None:
+        ctx.cov["gen_tables"] = {"regenerated": sorted(out), "rewritten": changed, "errors": errs, "source": core.REPO}
+    return out, errs
+
+
+if __name__ == "__main__":
+    out, errs = regenerate(None)
+    for k, v in errs.items():
+        print("gen:%s FAILED: %s" % (k, v))
+    if "--write-spec" in sys.argv:
+        for name, render in out.items():
+            print("Spec/%s.lean %s" % (name, "rewritten" if write_if_changed(os.path.join(SPEC_DIR, name + ".lean"), render("Spec")) else "unchanged"))
+        if not errs:
+            import json
+            print("spec_tables.json %s" % ("rewritten" if write_if_changed(SPEC_JSON, json.dumps(RAW, indent=1, sort_keys=True) + "\n") else "unchanged"))
+    sys.exit(1 if errs else 0)
